@@ -132,7 +132,7 @@ func (p *ptrExec) Exec(line string) (obs, viol string) {
 	}
 	obs, viol = p.Session.Exec(line)
 	switch t[0] {
-	case "new", "ins", "del", "get", "iter", "seek", "clone", "root", "roots", "load", "cur", "cmin", "cmax", "cfwd", "cbwd", "cceil":
+	case "new", "ins", "del", "get", "iter", "seek", "diff", "clone", "root", "roots", "load", "cur", "cmin", "cmax", "cfwd", "cbwd", "cceil":
 		switch {
 		case obs == "bad-slot" || obs == "bad-op":
 		case strings.HasPrefix(obs, "err"):
@@ -376,7 +376,12 @@ func genPtrCase(r *rand.Rand, cfg Cfg) Case {
 		case x < 70:
 			ops = append(ops, fmt.Sprintf("get %d %d", s, pick(r, uni)))
 		case x < 73:
-			if r.Intn(2) == 0 {
+			if len(slots) > 1 && r.Intn(3) == 0 {
+				// DiffIter between two live trees (clones, reloads, modified copies: any sharing of
+				// node objects between them)
+				o := pick(r, slots)
+				ops = append(ops, fmt.Sprintf("diff %d %d", o, s))
+			} else if r.Intn(2) == 0 {
 				ops = append(ops, fmt.Sprintf("seek %d %d", s, pick(r, uni)))
 			} else {
 				ops = append(ops, fmt.Sprintf("iter %d", s))
@@ -464,7 +469,7 @@ func genPtrCase(r *rand.Rand, cfg Cfg) Case {
 			}
 			op = opDel(s, k, m[k])
 		case 4:
-			op = pick(r, []string{fmt.Sprintf("get %d %d", s, pick(r, uni)), fmt.Sprintf("iter %d", s), fmt.Sprintf("seek %d %d", s, pick(r, uni))})
+			op = pick(r, []string{fmt.Sprintf("get %d %d", s, pick(r, uni)), fmt.Sprintf("iter %d", s), fmt.Sprintf("seek %d %d", s, pick(r, uni)), fmt.Sprintf("diff %d %d", pick(r, slots), s)})
 		default:
 			op = pick(r, []string{fmt.Sprintf("clone %d %d", s, r.Intn(5)), fmt.Sprintf("root %d %d", s, nroot)})
 		}
